@@ -1,6 +1,8 @@
 package main
 
 import (
+	"regexp"
+	"strconv"
 	"go/ast"
 	"go/constant"
 	"go/token"
@@ -30,6 +32,7 @@ func checkC20(c *Check) {
 	c20Post(c)
 	c20Lines(c)
 	c20ImportBudget(c)
+	c20EnvCleanup(c)
 	_ = p
 }
 
@@ -928,6 +931,35 @@ func c20Post(c *Check) {
 			}
 		}
 		c.Hold("R5", "readNodes:declarations-not-in-result", r.FI.Decl.Pos(), msg == "" && len(appends) > 0 && len(reads) == 1, msg)
+		// every node that enters the result – by an append statement or by an append inside a return – and every macro
+		// definition that enters the macro table has had its own macro references expanded since it was read
+		enters := append([]Pt{}, appends...)
+		for _, pt := range r.F.Points() {
+			switch st := pt.Node().(type) {
+			case *ast.ReturnStmt:
+				for _, res := range st.Results {
+					if call, ok := ast.Unparen(res).(*ast.CallExpr); ok {
+						if id, isID := call.Fun.(*ast.Ident); isID && id.Name == "append" && len(call.Args) >= 2 {
+							enters = append(enters, pt)
+						}
+					}
+				}
+			case *ast.AssignStmt:
+				for _, l := range st.Lhs {
+					if ix, ok := ast.Unparen(l).(*ast.IndexExpr); ok {
+						if fv := fieldOf(info, ix.X); fv != nil && objName(fv) == "macros" {
+							enters = append(enters, pt)
+						}
+					}
+				}
+			}
+		}
+		expands := r.Calls(calling("~/" + cfgparserRel + ".parseContext.expandMacros"))
+		msg2 := ""
+		if path, f := r.F.Reach(Query{From: reads, Target: isPt(enters), Avoid: func(q Pt) bool { return isPt(expands)(q) || isPt(reads)(q) }}); f {
+			msg2 = "a node can enter the parsed tree (or a macro definition the macro table) without expandMacros having been applied to it since it was read: a `$(name)` reference in it remains unexpanded in the returned tree: " + r.F.Describe(path)
+		}
+		c.Hold("R5", "readNodes:macros-expanded", r.FI.Decl.Pos(), msg2 == "" && len(expands) > 0, msg2)
 	}
 	if r := c.need("R5", cfgparserRel, "parseContext", "readNode"); r != nil {
 		info := r.Info
@@ -1146,4 +1178,98 @@ func c20Post(c *Check) {
 		c.Hold("R5", "expandImports:re-expands", r.FI.Decl.Pos(), msg == "", msg)
 	}
 	_ = p
+}
+
+
+// R7: "no placeholder remains". After the environment replacer ran, removeUnexpandedEnvvars deletes what is left of
+// the `{env:NAME}` placeholders with ONE pass of a regular expression. That pass must be closed: its output contains
+// no match of the same expression (deleting an inner placeholder must not let the text around it close up into a new
+// one – `{en{env:X}v:HOME}` – which a second parse of the printed tree would then expand: the round trip of the
+// property fails and a live placeholder is in the returned tree). The pattern is a constant of the program; it is
+// read from the source and the closure is decided by evaluating Go's regexp engine on every string of up to seven
+// tokens over the pattern's own alphabet (its literal pieces and one character of every class it distinguishes).
+// Nothing of maddy runs.
+func c20EnvCleanup(c *Check) {
+	c.Rule("R7", "removeUnexpandedEnvvars: one pass of each clean-up expression leaves nothing the same expression matches (decided for the constant pattern over all strings of up to seven tokens of its own alphabet)", 1)
+	r := c.need("R7", cfgparserRel, "", "removeUnexpandedEnvvars")
+	if r == nil {
+		return
+	}
+	info := r.Info
+	n := 0
+	for _, call := range callsIn(r.FI.Decl.Body) {
+		if !isCall(info, call, "regexp.Regexp.ReplaceAllString", "regexp.Regexp.ReplaceAllLiteralString") || len(call.Args) != 2 {
+			continue
+		}
+		n++
+		key := "removeUnexpandedEnvvars:pass" + itoa(n)
+		repl, okR := constString(info, call.Args[1])
+		v, isVar := objOf(info, callRecv(call)).(*types.Var)
+		if !okR || !isVar || v.Parent() != r.FI.Pkg.Types.Scope() {
+			c.Fail("R7", key, call.Pos(), "undecided: the clean-up expression is not a package-level constant pattern with a constant replacement")
+			continue
+		}
+		// the initialiser regexp.MustCompile(<constant>)
+		pat, found := "", false
+		for _, file := range r.FI.Pkg.Syntax {
+			ast.Inspect(file, func(x ast.Node) bool {
+				vs, ok := x.(*ast.ValueSpec)
+				if !ok {
+					return true
+				}
+				for i, nm := range vs.Names {
+					if info.Defs[nm] == v && i < len(vs.Values) {
+						if mc, ok := ast.Unparen(vs.Values[i]).(*ast.CallExpr); ok && isCall(info, mc, "regexp.MustCompile") && len(mc.Args) == 1 {
+							pat, found = constString(info, mc.Args[0])
+						}
+					}
+				}
+				return true
+			})
+		}
+		if !found {
+			c.Fail("R7", key, call.Pos(), "undecided: the pattern of "+v.Name()+" is not a constant handed to regexp.MustCompile")
+			continue
+		}
+		re, err := regexp.Compile(pat)
+		if err != nil {
+			c.Fail("R7", key, call.Pos(), "the clean-up pattern does not compile: "+err.Error())
+			continue
+		}
+		// alphabet: the literal prefix split in two (so that a match can be assembled around a deleted one), the
+		// closing delimiter, and one character per class the pattern can distinguish
+		prefix, _ := re.LiteralPrefix()
+		tokens := []string{"A", "$", "}"}
+		if len(prefix) >= 2 {
+			tokens = append(tokens, prefix, prefix[:len(prefix)/2], prefix[len(prefix)/2:])
+		}
+		witness := ""
+		var gen func(s string, depth int)
+		gen = func(s string, depth int) {
+			if witness != "" {
+				return
+			}
+			if s != "" {
+				out := re.ReplaceAllString(s, repl)
+				if isCall(info, call, "regexp.Regexp.ReplaceAllLiteralString") {
+					out = re.ReplaceAllLiteralString(s, repl)
+				}
+				if re.MatchString(out) {
+					witness = "input " + strconv.Quote(s) + " becomes " + strconv.Quote(out) + ", which the expression still matches"
+					return
+				}
+			}
+			if depth == 7 {
+				return
+			}
+			for _, t := range tokens {
+				gen(s+t, depth+1)
+			}
+		}
+		gen("", 0)
+		c.Hold("R7", key, call.Pos(), witness == "", "one pass of "+strconv.Quote(pat)+" is not closed: "+witness+" – a live placeholder is left in the returned tree, and printing and parsing the tree again expands it (the round trip changes the tree)")
+	}
+	if n == 0 {
+		c.Fail("R7", "removeUnexpandedEnvvars:passes", r.FI.Decl.Pos(), "undecided: no clean-up pass found")
+	}
 }
